@@ -31,6 +31,8 @@ CHECKS = {
          "layouts concrete (fixed core + VERIF_SEED sample), <= 3-4 lines; in two of three instances the non-comment fields are representative literals", "5.1, 6/C05", None),
  "C06": ("model_checking", "Reader harness: for every owner/group/link/restriction/callback-verdict combination the callback is consulted exactly once, after the restriction checks and before the file is opened, with the path and data pointer given. Layered-read harness: through each callback entry point the callback sees exactly the consulted sequence in order and one rejection (main file, k-th or masked drop-in) yields the callback-failed code and no content or history.",
          "as C01; position of the rejected file concrete per instance", "6/C06", None),
+ "C07": ("model_checking", "Parsed conventional files (enumerated layouts: comments before and after, quoted/empty/plain values, continuation lines, re-opened sections) are written, the bytes compared with the canonical serialisation, read back with the same delimiter and comment character and compared entry by entry; setter histories (all interleavings of group-less and sectioned keys, re-opened sections, overwrites up to the length bound) are written and read back and compared through the listing and string getters.",
+         "strings that pass through the writer are concrete except in layouts <= 9 bytes (writer output positions depend on string lengths); field characters are symbolic on the parsing side (C02); delimiter in {=,:,space}, comment in {#,;}", "5.4, 6/C07", None),
  "C08": ("model_checking", "For every value of each numeric type (all bit patterns) and every case variant of the boolean words the set/get pair is exact; decided symbolically, not sampled.",
          "printf/strto* axiomatised by tokens (C11 7.22.1.4, IEEE-754 round trip); write/read half by composition with C07", "6/C08", None),
  "C09": ("model_checking", "For every literal within the digit bounds (decimal near every type limit and beyond 64 bits, octal to 69 bits, hex to 68 bits) the integer getters return the mathematical value or an error; boolean getter decided for every byte string up to the length bound; valueless keys never dereferenced.",
